@@ -54,6 +54,23 @@ fn gen_int(kind: &str, i: usize, rng: &mut Rng) -> i64 {
             let bit = (sym.wrapping_mul(0x9E3779B97F4A7C15) >> 61) & 1;
             (if bit == 1 { 1 } else { -1 }) * (1 + (i % 7) as i64)
         }
+        "glitchy" => {
+            // NRZ at nominally 4 samples per symbol with runs of 1, 3, 4 and 5 equal-sign samples
+            // in pseudo-random order (glitches and stretched symbols): boundaries move around
+            let mut pos = 0usize;
+            let mut sign = 1i64;
+            let mut k = 0u64;
+            loop {
+                let r = (k.wrapping_mul(0x9E3779B97F4A7C15).wrapping_add(0x1234567) >> 59) as usize;
+                let run = [4, 4, 1, 5, 3, 4, 5, 1][r % 8];
+                if i < pos + run {
+                    break sign * (1 + (i % 5) as i64);
+                }
+                pos += run;
+                sign = -sign;
+                k += 1;
+            }
+        }
         "sqramp" => {
             // square wave whose amplitude differs from sample to sample, so a
             // shifted sampling instant is visible in the value
